@@ -223,6 +223,27 @@ Theorem C19_ci_per_component : forall (dim : nat) (samples : list (list Z)) (cn 
 Proof. exact ci_per_component. Qed.
 Print Assumptions C19_ci_per_component.
 
+(* the interval grows with the credibility level: lower bound non-increasing, upper bound non-decreasing, width
+   non-decreasing (levels c1/d <= c2/d in the documented range [0,100]) *)
+Theorem C19_ci_monotone_in_level : forall (l : list Z) (c1 c2 : Z) (d : positive), l <> [] ->
+  (0 <= c1 <= c2)%Z -> (c2 <= 100 * Z.pos d)%Z ->
+  ci_lo l c2 d <= ci_lo l c1 d /\ ci_hi l c1 d <= ci_hi l c2 d /\ ci_width l c1 d <= ci_width l c2 d.
+Proof. exact ci_monotone_in_level. Qed.
+Print Assumptions C19_ci_monotone_in_level.
+
+(* the ends of the range: level 0 gives the median twice, level 100 the minimum and the maximum *)
+Theorem C19_ci_level_0_100 : forall (l : list Z) (d : positive),
+  (ci_lo l 0 d == median l /\ ci_hi l 0 d == median l) /\
+  (l <> [] -> ci_lo l 100 1 == inject_Z (znth (isort l) 0) /\ ci_hi l 100 1 == inject_Z (znth (isort l) (zlen l - 1))).
+Proof. intros l d. split; [exact (ci_level_0 l d) | exact (ci_level_100 l)]. Qed.
+Print Assumptions C19_ci_level_0_100.
+
+(* compute_ci is refused exactly for levels of absolute value above 100 (numpy's percentile range) *)
+Theorem C19_ci_refusal : forall (l : list Z) (cn : Z) (cd : positive),
+  (exists r, ci_opt l cn cd = Some r) <-> (- (100 * Z.pos cd) <= cn <= 100 * Z.pos cd)%Z.
+Proof. exact ci_opt_defined. Qed.
+Print Assumptions C19_ci_refusal.
+
 (* the integer-sum form of the variance used for chains with thousands of draws is the variance *)
 Theorem C19_variance_fast : forall l : list Z, l <> [] -> variance_fast l == variance l.
 Proof. exact variance_fast_eq. Qed.
